@@ -891,7 +891,10 @@ def same_basis_cases(draw):
     N = spec["grid"]["n"] * spec["unique"]
     return dict(noise=spec, seed_a=draw(seeds32), seed_b=draw(seeds32),
                 amp_b=draw(amp_specs(("default", "const", "vec"))),
-                window=draw(windows(N, "far")))
+                window=draw(windows(N, "far")),
+                # the receiving object has (own values / a re-gridded copy / nothing) been evaluated
+                # before it is given the basis: its waveform must follow its published basis anyway
+                used_first=draw(st.sampled_from(["no", "values", "with_times", "both"])))
 
 
 def transplant(dst, freqs, amps, phases):
@@ -907,8 +910,13 @@ def check_same_basis(case, rec):
     b_obj, _, _, _ = build_noise(spec, case["seed_b"], amp=case["amp_b"])
     ba = basis_of(a)
     sc = scale_of(ba)
-    transplant(b_obj, a.freqs, a.amps, a.phases)            # before any value is read
     _, t = window_times(times[0], spec["grid"]["dt"], case["window"])
+    used = case.get("used_first", "no")
+    if used in ("values", "both"):
+        np.asarray(b_obj.values)
+    if used in ("with_times", "both"):
+        np.asarray(b_obj.with_times(t).values)
+    transplant(b_obj, a.freqs, a.amps, a.phases)
     for what, x, y in (("own times", a.values, b_obj.values),
                        ("with_times", a.with_times(t).values, b_obj.with_times(t).values)):
         d = float(np.max(np.abs(np.asarray(x) - np.asarray(y))))
@@ -919,7 +927,7 @@ def check_same_basis(case, rec):
         require(not np.array_equal(a.phases, c.phases), "independent objects have identical phases")
         d = float(np.max(np.abs(np.asarray(a.values) - np.asarray(c.values))))
         require(d > 1e-9 * sc, "independent objects have the same waveform (difference %r, scale %r)", d, sc)
-    rec.case(case, nontrivial=nontrivial, classes=[spec["cls"], "amp:" + spec["amp"]["kind"]])
+    rec.case(case, nontrivial=nontrivial, classes=[spec["cls"], "amp:" + spec["amp"]["kind"], "used_first:" + used])
 
 
 # ---------------------------------------------------------------------------
